@@ -164,7 +164,8 @@ PROPS = {
               "arithmetic: zero constant term, coefficients c_i/(i+1) within 3u, the returned F evaluated exactly at "
               "knot.x equals knot.y within (4(n+3)+2)u*(sum|F_i||x|^i+|y|), F(b)-F(a) (library evaluate) equals the exact "
               "integral within (4(n+3)+4)u*(A_F(a)+A_F(b)), derivative of the result within one ulp of p; Segment<T> "
-              "integral compared bit for bit with the piece's (online)"),
+              "integral / indefinite are recorded as events of their own and judged by the same oracle (breakpoint "
+              "bits checked online)"),
     ),
     "C08": dict(
         technique='runtime monitoring: recorded derivative events decided offline exactly; piece-by-piece structure decided online with trace probes and real pieces',
